@@ -4,7 +4,7 @@ use crate::mon::pools::Kind;
 use crate::rt::{run_shards, Acc, CheckMeta, Ctx};
 
 pub fn run(ctx: &Ctx) -> (CheckMeta, Acc) {
-    let n = ctx.tier.pick(8, 100);
+    let n = ctx.tier.pick(32, 1000);
     let total = run_shards(ctx, 16, |sh, acc| {
         let rp = ctx.replay.as_ref().map(|r| r.history);
         let sel = |lo: u64| rp.map(|h| h >= lo && h < lo + 100_000_000).unwrap_or(true);
